@@ -244,6 +244,7 @@ def c18(res):
     if res.tier == "thorough":
         import fam_graph
         fam_graph.example_single_copy(res, clients=(2, 3))
+        fam_graph.example_abd(res)
     res.rule = ("(a) reference objects: every (object state reached by a prefix, op, ret) within bounds: invoke / is_valid_step / "
                 "is_valid_history vs RefObjects.tla; (b) RegisterActor clients + record hooks around a chaos server (answers each "
                 "request at most once, any order, any value, or never) on all network kinds: every reachable state of the real "
